@@ -415,7 +415,7 @@ class Charge:
     def __array__(self, dtype: np.dtype | None = None):
         if not isinstance(self._array, np.ndarray):
             raise TypeError("Array not initialized.")
-        return np.asarray(self._array, dtype=dtype)
+        return np.asarray(self.array, dtype=dtype)
 
     @property
     def frame(self) -> "pd.DataFrame":
